@@ -51,6 +51,12 @@ def gen_case(rng, tier, avoid):
             second.append({'op': 'set_prop', 'h': op['h'], 'prop': 'data', 'v': gen.payload(rng, cap, tiny_ok=tiny_ok)})
         if rng.random() < 0.4:
             second.append({'op': 'set_prop', 'h': nfs[0][0], 'prop': 'name', 'v': 'RENAMED-NF'})
+        if rng.random() < 0.3 and second and second[0]['prop'] == 'data':
+            # a wrong payload (neither text nor bytes) assigned first and corrected by the assignment that follows
+            second.insert(0, {'op': 'set_prop', 'h': second[0]['h'], 'prop': 'data', 'v': rng.choice([12, 1.5, ['a']])})
+        if rng.random() < 0.3:
+            # a failed attempt to write (I/O error or interrupt at a seeded point) after the changes, before the write under test
+            second.append(gen.failed_attempt(rng, {'op': 'write', 'fid': 'f0', 'output_chunk_size': 1 << 20}))
     if rng.random() < 0.2:
         ops = gen.noise_file(rng) + ops
     return {'scenario': {'env': {'tz': 'UTC'}, 'history': ops},
